@@ -20,6 +20,7 @@ Hypothesis HTerm : forall r t, P (VTerm r t).
 Hypothesis HJoin : forall r ps, Forall P ps -> P (VJoin r ps).
 Hypothesis HConv : forall r x, P x -> P (VConv r x).
 Hypothesis HObj : forall c p e a, Forall (fun kv => P (snd kv)) a -> P (VObj c p e a).
+Hypothesis HRef : forall nm p cl, P nm -> P (VRef nm p cl).
 Hypothesis HList : forall l, Forall P l -> P (VList l).
 Fixpoint value_ind2 (v : value) : P v :=
   match v with
@@ -37,6 +38,7 @@ Fixpoint value_ind2 (v : value) : P v :=
                      | [] => Forall_nil _
                      | (k, x) :: l' => @Forall_cons _ (fun kv => P (snd kv)) (k, x) l' (value_ind2 x) (go l')
                      end) a)
+  | VRef nm p cl => HRef nm p cl (value_ind2 nm)
   | VList l => HList l ((fix go (l : list value) : Forall P l :=
                            match l with [] => Forall_nil P | x :: l' => Forall_cons x (value_ind2 x) (go l') end) l)
   end.
@@ -83,6 +85,7 @@ Fixpoint vrel (v v' : value) {struct v} : Prop :=
   | VObj c p e a, VObj c' p' e' a' =>
     c' = c /\ p' = p /\ e' = e /\
     list_rel (fun kv kv' => fst kv' = fst kv /\ vrel (snd kv) (snd kv')) a a'
+  | VRef nm p cl, VRef nm' p' cl' => vrel nm nm' /\ p' = p /\ cl' = cl
   | VList l, VList l' => list_rel (fun x y => vrel x y) l l'
   | _, _ => False
   end.
@@ -115,7 +118,7 @@ Qed.
 Lemma vrel_truthy : forall v v', vrel v v' ->
   val_truthy v' = val_truthy v /\ str_nonempty v' = str_nonempty v.
 Proof.
-  induction v as [| b | t | s | r t | r ps IH | r x IH | c p e a IH | l IH] using value_ind2;
+  induction v as [| b | t | s | r t | r ps IH | r x IH | c p e a IH | nm p cl IH | l IH] using value_ind2;
     intros v' H; destruct v'; try contradiction; cbn [vrel] in H.
   - split; reflexivity.
   - subst. split; reflexivity.
@@ -130,6 +133,7 @@ Proof.
       destruct Hr as [Hxy Hr]. rewrite (proj2 (Hx y Hxy)), (IHl l' Hr). reflexivity. }
     rewrite (E _ H). split; reflexivity.
   - destruct H as [-> H]. cbn [val_truthy str_nonempty]. exact (IH _ H).
+  - split; reflexivity.
   - split; reflexivity.
   - cbn [val_truthy str_nonempty]. destruct l, l0; try contradiction; split; reflexivity.
 Qed.
@@ -296,6 +300,12 @@ Proof.
       destr2 Hr; try contradiction; cbn [vbrel vrel]; [split; [reflexivity | exact Hr] | exact Hr].
 Qed.
 
+Lemma tpos_ft t : tpos (ftt t) = tpos t.
+Proof.
+  induction t as [n p len sup | n kids IH] using tree_ind2; [reflexivity|].
+  cbn [ft tpos]. destruct kids as [|k kids]; [reflexivity|]. cbn [map]. inversion IH; subst. assumption.
+Qed.
+
 (* ---- the loops, for related recursive calls *)
 Section Loops.
 Variables rec rec' : tree -> option cur -> bres (value * option cur).
@@ -311,18 +321,24 @@ Proof.
   - exact Hk.
 Qed.
 
-Lemma lst_rel is_sep is_sep' a is_ref l :
+Lemma lst_rel is_sep is_sep' a refcls l :
   (forall k, is_sep' (ftt k) = is_sep k) -> (forall k, In k l -> rec_rel k) ->
   forall top top', orel top top' ->
-  orrel (lst_loop rec is_sep a is_ref l top) (lst_loop rec' is_sep' a is_ref (map ftt l) top').
+  orrel (lst_loop rec is_sep a refcls l top) (lst_loop rec' is_sep' a refcls (map ftt l) top').
 Proof.
   intro Hsep. induction l as [|k l IH]; intros Hr top top' Ho; cbn [map lst_loop]; [exact Ho|].
   rewrite Hsep. assert (Hr' : forall x, In x l -> rec_rel x) by (intros x Hx; apply Hr; right; exact Hx).
   destruct (is_sep k); [apply IH; assumption|].
   pose proof (Hr k (or_introl eq_refl) top top' Ho) as Hk.
-  destruct (rec k top) as [[v o]|e], (rec' (ftt k) top') as [[v' o']|e']; cbn [rrel] in Hk; try contradiction;
+  destruct (rec k top) as [[v0 o]|e], (rec' (ftt k) top') as [[v0' o']|e']; cbn [rrel] in Hk; try contradiction;
     [|exact Hk].
-  destruct Hk as [Hv Ho1]. destruct is_ref; [reflexivity|].
+  destruct Hk as [Hv0 Ho1]. cbv zeta. rewrite tpos_ft.
+  assert (Hv : vrel (match refcls with Some cl => VRef v0 (tpos k) cl | None => v0 end)
+                    (match refcls with Some cl => VRef v0' (tpos k) cl | None => v0' end)).
+  { destruct refcls; [cbn [vrel]; repeat split; exact Hv0 | exact Hv0]. }
+  set (v := match refcls with Some cl => VRef v0 (tpos k) cl | None => v0 end) in *.
+  set (v' := match refcls with Some cl => VRef v0' (tpos k) cl | None => v0' end) in *.
+  clearbody v v'.
   destruct o as [c1|], o' as [c1'|]; cbn [orel] in Ho1; try contradiction; [|reflexivity].
   pose proof (get_val_rel a _ _ (proj2 (proj2 (proj2 (proj2 Ho1))))) as Hg.
   destruct (get_val a (c_vals c1)) as [w|], (get_val a (c_vals c1')) as [w'|]; try contradiction; [|reflexivity].
@@ -383,12 +399,6 @@ Proof.
   exact (proj2 (H (T n p len sup) (or_introl eq_refl) n p len (or_introl eq_refl))).
 Qed.
 
-Lemma tpos_ft t : tpos (ftt t) = tpos t.
-Proof.
-  induction t as [n p len sup | n kids IH] using tree_ind2; [reflexivity|].
-  cbn [ft tpos]. destruct kids as [|k kids]; [reflexivity|]. cbn [map]. inversion IH; subst. assumption.
-Qed.
-
 Lemma tend_ft t : tend (ftt t) = tend t.
 Proof.
   induction t as [n p len sup | n kids IH] using tree_ind2; [reflexivity|].
@@ -432,7 +442,13 @@ Proof.
         destruct (pnode g mm input grp auto ug k (Some c)) as [[v o]|e],
                  (pnode g' mm input' grp' auto ug (ftt k) (Some c')) as [[v' o']|e']; cbn [rrel] in Hk; try contradiction;
           [|exact Hk].
-        destruct Hk as [Hv Ho1]. destruct (a_ref ma && negb (a_cont ma))%bool; [reflexivity|].
+        destruct Hk as [Hv0 Ho1]. cbv zeta. rewrite tpos_ft.
+        assert (Hv : vrel (if (a_ref ma && negb (a_cont ma))%bool then VRef v (tpos k) (a_cls ma) else v)
+                          (if (a_ref ma && negb (a_cont ma))%bool then VRef v' (tpos k) (a_cls ma) else v')).
+        { destruct (a_ref ma && negb (a_cont ma))%bool; [cbn [vrel]; repeat split; exact Hv0 | exact Hv0]. }
+        set (w := if (a_ref ma && negb (a_cont ma))%bool then VRef v (tpos k) (a_cls ma) else v) in *.
+        set (w' := if (a_ref ma && negb (a_cont ma))%bool then VRef v' (tpos k) (a_cls ma) else v') in *.
+        clearbody w w'. clear Hv0.
         destruct o as [c1|], o' as [c1'|]; cbn [orel] in Ho1; try contradiction; [|reflexivity].
         destruct av, av'; try contradiction;
           try (cbn [rrel]; split; [exact I | cbn [orel]; apply cur_set_rel; assumption]).
@@ -442,7 +458,8 @@ Proof.
         cbn [rrel]. split; [exact I|]. cbn [orel]. apply cur_set_rel; [reflexivity | exact Hc].
       * (* list *)
         pose proof (lst_rel (pnode g mm input grp auto ug) (pnode g' mm input' grp' auto ug)
-                            (is_sep_of g nid) (is_sep_of g' nid) a (a_ref ma && negb (a_cont ma))%bool kids
+                            (is_sep_of g nid) (is_sep_of g' nid) a
+                            (if (a_ref ma && negb (a_cont ma))%bool then Some (a_cls ma) else None) kids
                             (G_sep nid) Hrec (Some c) (Some c') Hc) as Hl.
         destruct (lst_loop (pnode g mm input grp auto ug) (is_sep_of g nid) a _ kids (Some c)) as [o|e],
                  (lst_loop (pnode g' mm input' grp' auto ug) (is_sep_of g' nid) a _ (map ftt kids) (Some c')) as [o'|e'];
@@ -518,7 +535,7 @@ Qed.
 
 Lemma vrel_id_eq : forall v v', vrel (fun c => c) v v' -> v' = v.
 Proof.
-  induction v as [| b | t | s | r t | r ps IH | r x IH | c p e a IH | l IH] using value_ind2;
+  induction v as [| b | t | s | r t | r ps IH | r x IH | c p e a IH | nm p cl IH | l IH] using value_ind2;
     intros v' H; destruct v'; try contradiction; cbn [vrel] in H.
   - reflexivity.
   - congruence.
@@ -531,6 +548,7 @@ Proof.
     apply (list_rel_eq (kvrel (fun c => c)) a); [|exact H].
     rewrite Forall_forall in *. intros [k x] Hin [k' y] [Hk Hv]. cbn [fst snd] in *.
     rewrite Hk, (IH (k, x) Hin y Hv). reflexivity.
+  - destruct H as [H [-> ->]]. rewrite (IH _ H). reflexivity.
   - rewrite (list_rel_eq _ l IH _ H). reflexivity.
 Qed.
 
